@@ -21,8 +21,8 @@ def tipShape : Shape := .struct [.point, .uint 64]
 def decTagBytes (m : Mode) (t0 : Cbor) : Option (Nat × Bytes) :=
   let t := if m.tags then strip55799 t0 else t0
   match t with
-  | .tag _ n x0 =>
-    let x := if m.tags then strip55799 x0 else x0
+  | .tag _ n x =>
+    -- the content of a tag is decoded as it stands (a nested self-described tag stays a tag)
     match strPayload false x with
     | some b => if m.tags || n == 24 then some (n, b) else none
     | none => none
@@ -51,11 +51,8 @@ def decRollForwardNtC (m : Mode) (t : Cbor) : Option Val :=
 /-- `WrappedHeader.UnmarshalCBOR` on the item it is handed; rendered as (era, r) — the exported
     RawMessage field is not filled by the decoder -/
 def decWrappedHeader (m : Mode) (t0 : Cbor) : Option Val :=
-  let t := if m.tags then strip55799 t0 else t0
-  match t with
-  | .tag _ _ _ => none
-  | _ =>
-  match structItems m t with
+  -- the Unmarshaler is handed the item with its tags; its own Decode into a struct skips them
+  match structItems m t0 with
   | some [era, raw] =>
     match decVal m (.uint 64) era with
     | some (.u e) =>
